@@ -252,7 +252,8 @@ impl<'a> TypstTranslator<'a> {
                 let first_char = chars.next().unwrap();
                 let length = chars.count() + 1;
 
-                if first_char == '\n' {
+                // A line may end in blanks or in a carriage return before its line feed.
+                if first_char == '\n' || get_text!(a).contains('\n') {
                     token!(a, TokenKind::Newline(1))
                 } else {
                     token!(a, TokenKind::Space(length))
